@@ -463,7 +463,15 @@ impl<'f, 't, 'w, W: Write> Formatter<'f, 't, 'w, W> {
                  to format Unix timestamp",
             )
         })?;
-        ext.write_int(b' ', None, timestamp.as_second(), self.wtr)
+        // `%s` is the whole number of seconds since the Unix epoch, rounded
+        // toward negative infinity (like C's `time_t`), so that it agrees
+        // with the civil fields (e.g., `%S`) of the same instant. Notably,
+        // `Timestamp::as_second` rounds toward zero.
+        let mut second = timestamp.as_second();
+        if timestamp.subsec_nanosecond() < 0 {
+            second -= 1;
+        }
+        ext.write_int(b' ', None, second, self.wtr)
     }
 
     /// %f
